@@ -49,12 +49,16 @@ def _coords(d, tier):
     return [-0.75, 1.75]
 
 
-def _points(d, cell, tier):
+def _points(d, cell, tier, compact=False):
     pts = np.array(list(itertools.product(_coords(d, tier), repeat=d)), float)
+    if compact:  # the whole set fits into a box much smaller than the longest cell side
+        return pts * float(np.min(cell))
     return pts * np.asarray(cell, float)[None, :]
 
 
 def _cell(d, which):
+    if which == "slab":  # one short periodic direction, the others 20x longer
+        return [2.0] + [40.0] * (d - 1)
     return [1.0] * d if which == "unit" else CELL_ANISO[:d]
 
 
@@ -62,7 +66,7 @@ def bounds(tier, seed):
     return dict(
         dimensions=[1, 2, 3, 4, 5, 6],
         lattice={d: len(_points(d, _cell(d, "unit"), tier)) for d in range(1, 7)},
-        cells=["unit", CELL_ANISO],
+        cells=["unit", CELL_ANISO, "slab [2, 40, ...] with a compact point set"],
         shifts="all of {-2..2}^d for d <= 2; axis shifts +-1, +-2 and the all-ones shift for d >= 3; applied to either argument",
         squared=[False, True],
         precisions="identity, 2 lower-triangular L L^T per dimension, and their stack",
@@ -74,7 +78,7 @@ def groups(tier, seed):
     out = []
     for fn in ("euclid", "mahal"):
         for d in range(1, 7):
-            for which in ("unit", "aniso", "none"):
+            for which in ("unit", "aniso", "none") + (("slab",) if d >= 2 else ()):
                 for squared in (False, True):
                     out.append(dict(fn=fn, d=d, cell=which, squared=squared, tier=tier))
     out.append(dict(fn="dimcheck", d=2, cell="unit", squared=False, tier=tier))
@@ -146,7 +150,7 @@ def check(case):
 
     cell = None if which == "none" else np.array(_cell(d, which), float)
     cvec = np.ones(d) if cell is None else cell
-    P = _points(d, cvec, tier)
+    P = _points(d, cvec, tier, compact=(which == "slab"))
     n = len(P)
     diag = float(np.sqrt((cvec ** 2).sum()))
     tol = 1e-9 * max(diag, 1.0)
@@ -264,6 +268,15 @@ def check(case):
         pe = np.asarray(periodic_pairwise_euclidean_distances(P, P, cell_length=None if cell is None else cell.tolist(), squared=squared), float)
         if np.abs(pe - S[2]).max() > 1e-9 * max(1.0, np.abs(pe).max()) + (1e-7 if cell is None else 0):
             r.fail("identity-precision-differs-from-periodic-euclidean", "max diff %.3g" % np.abs(pe - S[2]).max())
+    # nothing may be remembered by object identity: the same arrays updated in place == fresh arrays
+    Pa, Pb = P.copy(), P[: max(2, n // 3)].copy()
+    first = call(Pa, Pb)
+    Pb *= 1.25
+    Pb += 0.375 * cvec[None, :]
+    again = call(Pa, Pb)
+    fresh = call(Pa.copy(), Pb.copy())
+    if np.abs(again - fresh).max() > 1e-12 * max(1.0, np.abs(fresh).max()):
+        r.fail("result-depends-on-array-identity", "second call with the same (updated) array object differs from fresh arrays by %.3g" % np.abs(again - fresh).max())
     outside = bool((np.abs(P) > cvec[None, :]).any()) if cell is not None else True
     r.nontrivial = outside and (cell is None or half_pairs > 0)
     r.count("half_cell_pairs", half_pairs)
